@@ -913,14 +913,20 @@ def unpack_extension(data):
 
         colon = data.index(b':')
         number = data[:colon]
+        if not number.isdigit():
+            raise ValueError("bad length %r in URI extension block" % (number,))
         length = int(number)
         data = data[colon+1:]
 
         value = data[:length]
-        assert data[length:length+1] == b','
+        if data[length:length+1] != b',':
+            raise ValueError("URI extension block value is not followed by ','")
         data = data[length+1:]
 
-        d[str(key, "utf-8")] = value
+        key = str(key, "utf-8")
+        if key in d:
+            raise ValueError("duplicate key %r in URI extension block" % (key,))
+        d[key] = value
 
     # convert certain things to numbers
     for intkey in ('size', 'segment_size', 'num_segments',
